@@ -22,6 +22,13 @@ def case_task(task):
         data = gen.make_data(rng, n, D, G, kind=kind)
         case = {"id": c["id"], "D": D, "G": G, "kind": kind, "forest": f.describe(), "seed": task["seed"], "mode": c["mode"]}
         try:
+            if c["id"] % 3 == 0:
+                # process history: the same clones with the siblings in another order were summarised just before
+                # (clones created in the opposite sibling order: other graph positions and edge order, same data)
+                other, _on = gen.build_tree(f, data, order=f.postorder(reverse_siblings=True),
+                                            child_order_rng=np.random.default_rng(c["id"]))
+                get_map_node_ccfs_and_clonal_prev_dicts(other)
+                part.count("sibling_order_histories")
             tree, names = gen.build_tree(f, data, child_order_rng=rng if c["id"] % 2 else None)
             ccfs, prevs = get_map_node_ccfs_and_clonal_prev_dicts(tree)
         except Exception as e:
